@@ -20,6 +20,7 @@ import (
 )
 
 var site = 0
+var rangesRewritten = 0
 var locksOnly = false
 var sitesOut []string
 
@@ -154,6 +155,39 @@ func isLoggingCall(s ast.Stmt) bool {
 	return strings.HasPrefix(t, "logging.Logger.") || strings.HasPrefix(t, "Logger.")
 }
 
+// Maps of the code under test that are ranged over while their iteration order can influence what other
+// tasks observe (order of writes, of yield points): in the instrumented copy they are visited in key order, so
+// that a run is a function of its script. All of them have string-kinded keys.
+var orderedRanges = map[string]bool{"cc.Changes": true, "cc.Deletes": true, "mndb.Nodes": true, "bc.cache": true, "tc.cache": true}
+
+// rewriteRange turns `for k, v := range M { body }` into
+// `for _, k := range simrt.Keys(M) { v, ok := M[k]; if !ok { continue }; body }`.
+func rewriteRange(r *ast.RangeStmt) bool {
+	var b bytes.Buffer
+	format.Node(&b, token.NewFileSet(), r.X)
+	if !orderedRanges[b.String()] || r.Tok != token.DEFINE {
+		return false
+	}
+	key := ast.NewIdent("simrtKey")
+	if id, ok := r.Key.(*ast.Ident); ok && id.Name != "_" {
+		key = id
+	}
+	m := r.X
+	var pre []ast.Stmt
+	if id, ok := r.Value.(*ast.Ident); ok && id.Name != "_" {
+		okID := ast.NewIdent("simrtOK")
+		pre = append(pre,
+			&ast.AssignStmt{Lhs: []ast.Expr{id, okID}, Tok: token.DEFINE, Rhs: []ast.Expr{&ast.IndexExpr{X: m, Index: key}}},
+			&ast.IfStmt{Cond: &ast.UnaryExpr{Op: token.NOT, X: okID}, Body: &ast.BlockStmt{List: []ast.Stmt{&ast.BranchStmt{Tok: token.CONTINUE}}}})
+	}
+	r.Key = ast.NewIdent("_")
+	r.Value = key
+	r.X = simCall("Keys", m)
+	r.Body.List = append(pre, r.Body.List...)
+	rangesRewritten++
+	return true
+}
+
 func rewriteList(fset *token.FileSet, list []ast.Stmt) []ast.Stmt {
 	var out []ast.Stmt
 	for _, s := range list {
@@ -198,7 +232,15 @@ func instrumentFile(root, fn string, yields bool) error {
 	if err != nil {
 		return err
 	}
-	before := site
+	before := site + rangesRewritten
+	if yields {
+		ast.Inspect(f, func(n ast.Node) bool {
+			if r, ok := n.(*ast.RangeStmt); ok {
+				rewriteRange(r)
+			}
+			return true
+		})
+	}
 	ast.Inspect(f, func(n ast.Node) bool {
 		switch b := n.(type) {
 		case *ast.BlockStmt:
@@ -210,7 +252,7 @@ func instrumentFile(root, fn string, yields bool) error {
 		}
 		return true
 	})
-	if site == before {
+	if site+rangesRewritten == before {
 		return nil // untouched
 	}
 	imp := &ast.ImportSpec{Path: &ast.BasicLit{Kind: token.STRING, Value: `"verif/simrt"`}}
